@@ -411,6 +411,8 @@ fn writer_case(ctx: &Ctx, idx: u64, r: &mut Rng, lzip: bool, tiny: bool) -> Vec<
     enum WF {
         None,
         SinkError { call: usize, kind: ErrorKind },
+        /// the sink fails one write call and works again; the caller goes on writing and finishes
+        SinkErrorOnce { call: usize, kind: ErrorKind },
         ShortWrites(usize),
         FlushError(ErrorKind),
         WorkerFail { unit: u64 },
@@ -425,7 +427,8 @@ fn writer_case(ctx: &Ctx, idx: u64, r: &mut Rng, lzip: bool, tiny: bool) -> Vec<
     } else {
         match r.below(10) {
             0 | 1 => WF::None,
-            2 | 3 | 4 => WF::SinkError { call: r.usize_below(12), kind: *r.pick(&KINDS) },
+            2 | 3 => WF::SinkError { call: r.usize_below(12), kind: *r.pick(&KINDS) },
+            4 => WF::SinkErrorOnce { call: r.usize_below(8), kind: *r.pick(&KINDS) },
             5 => WF::ShortWrites(*r.pick(&[1usize, 3, 100])),
             6 => WF::FlushError(*r.pick(&KINDS)),
             7 | 8 => WF::WorkerFail { unit: r.below(units.max(1) as u64) },
@@ -435,6 +438,7 @@ fn writer_case(ctx: &Ctx, idx: u64, r: &mut Rng, lzip: bool, tiny: bool) -> Vec<
     let mut plan = WritePlan::default();
     match &wf {
         WF::SinkError { call, kind } => plan.err_at_call = Some((*call, *kind)),
+        WF::SinkErrorOnce { call, kind } => plan.err_once_at = Some((*call, *kind)),
         WF::ShortWrites(n) => plan.short = vec![*n],
         WF::FlushError(k) => plan.flush_err_at = Some((0, *k)),
         WF::Interrupted { call } => plan.interrupted_at = vec![*call],
@@ -453,6 +457,7 @@ fn writer_case(ctx: &Ctx, idx: u64, r: &mut Rng, lzip: bool, tiny: bool) -> Vec<
     let d2 = data.clone();
     let part = partition.clone();
     let plan2 = plan.clone();
+    let once = matches!(wf, WF::SinkErrorOnce { .. });
     // result: (outcome of the call sequence, sink bytes if finish returned Ok, delivered faults)
     let g = mt::guarded(4000, 120_000, move || {
         let sink = FaultyWrite::new(plan2);
@@ -466,15 +471,31 @@ fn writer_case(ctx: &Ctx, idx: u64, r: &mut Rng, lzip: bool, tiny: bool) -> Vec<
                     let res = if n == 0 { w.write(&[]).map(|_| ()) } else { write_all_bounded(&mut w, &d2[off..off + n]) };
                     off += n;
                     if let Err(e) = res {
-                        first_err = Some(e);
-                        break;
-                    }
-                    if flush_mid && i % 3 == 1 {
-                        if let Err(e) = flush_bounded(&mut w) {
+                        if first_err.is_none() {
                             first_err = Some(e);
+                        }
+                        // a one-time sink error: this caller carries on with the next piece
+                        if !once {
                             break;
                         }
                     }
+                    if flush_mid && i % 3 == 1 {
+                        if let Err(e) = flush_bounded(&mut w) {
+                            if first_err.is_none() {
+                                first_err = Some(e);
+                            }
+                            if !once {
+                                break;
+                            }
+                        }
+                    }
+                }
+                if once {
+                    // whatever was reported on the way: success of finish() is a claim about the stream
+                    return match w.finish() {
+                        Ok(s) => (Ok(()), first_err.is_some(), Some((s.out, s.delivered_err && first_err.is_none(), s.delivered_interrupts, s.delivered_short))),
+                        Err(e) => (Err(first_err.unwrap_or(e)), false, None),
+                    };
                 }
                 if first_err.is_some() && write_after_error {
                     // calls after an error must still return
@@ -519,6 +540,7 @@ fn writer_case(ctx: &Ctx, idx: u64, r: &mut Rng, lzip: bool, tiny: bool) -> Vec<
     let fclass = match &wf {
         WF::None => "no-fault",
         WF::SinkError { .. } => "sink-error",
+        WF::SinkErrorOnce { .. } => "sink-error-once",
         WF::ShortWrites(_) => "short-writes",
         WF::FlushError(_) => "flush-error",
         WF::WorkerFail { .. } => "worker-failure",
@@ -566,7 +588,7 @@ fn writer_case(ctx: &Ctx, idx: u64, r: &mut Rng, lzip: bool, tiny: bool) -> Vec<
                     WF::None | WF::ShortWrites(_) | WF::Interrupted { .. } => {
                         vec![CaseOut::viol(cell, format!("spurious-error {wname} {fclass} {:?}:{}", e.kind(), e), "no persistent fault was injected", desc)]
                     }
-                    WF::SinkError { kind, .. } | WF::FlushError(kind) => {
+                    WF::SinkError { kind, .. } | WF::SinkErrorOnce { kind, .. } | WF::FlushError(kind) => {
                         if e.kind() != *kind {
                             vec![CaseOut::viol(cell, format!("error-kind-lost {wname} {fclass}"), format!("sink error {kind:?} surfaced as {:?}: {e}", e.kind()), desc)]
                         } else {
